@@ -36,6 +36,13 @@ INSTANCE = Union[None, bool, int, str, List[int], Dict[str, int]]
 # a float keyword value never meets a symbolic integer in E1 (CrossHair's int-vs-float arithmetic crashed z3 / enumerates integers);
 # the numeric kernels with float operands are decided by the E2 queries
 INSTANCE_NO_INT = Union[None, bool, str, List[str], Dict[str, bool]]
+# ... and because even a *length* is a symbolic integer (len(x) < 2.0), instances that meet float keyword values, or a symbolic divisor,
+# come from a concrete catalogue chosen by a symbolic index
+INST_CAT = [None, True, 0, 3, -4, 2.5, 1e308, 10 ** 30, "", "ab", [], [1, 2], [[], "x", None], {}, {"a": 1, "b": [2]}]
+
+
+def concrete_instance_needed(k, kind):
+    return kind == "float" or k in ("multipleOf", "divisibleBy")
 
 
 def kinds_for(d, k):
@@ -147,7 +154,11 @@ def single(d, k, kind, position="root", eps="core", exclude=(), small_cat=False)
             base["definitions"] = {"a": {"type": "integer"}}
         return place(d, base)
 
+    cat = concrete_instance_needed(k, kind)
+
     def pre(v, x):
+        if cat and not (0 <= x < len(INST_CAT)):
+            return False
         if "F10" in exclude and kind == "refstr" and v == REFS.index(NON_SCHEMA_REF):
             return False
         if not (small(v, 2, 2, 2) and vok(d, kind, v)):
@@ -155,12 +166,14 @@ def single(d, k, kind, position="root", eps="core", exclude=(), small_cat=False)
         # the documented validity predicate, executed for real, *before* the instance is looked at: rejected schemas cost one path
         if not accepted(d, schema_of(v)):
             return False
+        if cat:
+            return True
         return small(x, 1, 1) if small_cat else small(x, 2, 2)
 
     def body(v, x):
-        return True, run_entry_points(d, schema_of(v), x, ep_list)
+        return True, run_entry_points(d, schema_of(v), pick(INST_CAT, x) if cat else x, ep_list)
 
-    return Spec([("v", vtype(kind)), ("x", INSTANCE_NO_INT if kind == "float" else INSTANCE)], pre, body, tags=[])
+    return Spec([("v", vtype(kind)), ("x", int if cat else INSTANCE)], pre, body, tags=[])
 
 
 PAIRS = [
@@ -187,18 +200,24 @@ def pairf(d, k1, kind1, k2, kind2, small_cat=False):
     cand.SMALL[0] = small_cat
     SPECIAL["typename"] = TYPENAMES_SMALL if small_cat else TYPENAMES
 
+    cat = concrete_instance_needed(k1, kind1) or concrete_instance_needed(k2, kind2)
+
     def pre(v1, v2, x):
+        if cat and not (0 <= x < len(INST_CAT)):
+            return False
         if not (small(v1, 2, 2, 2) and small(v2, 2, 2, 2) and vok(d, kind1, v1) and vok(d, kind2, v2)):
             return False
         if not accepted(d, {k1: vof(d, kind1, v1), k2: vof(d, kind2, v2)}):
             return False
+        if cat:
+            return True
         return small(x, 1, 1) if small_cat else small(x, 2, 2)
 
     def body(v1, v2, x):
         schema = {k1: vof(d, kind1, v1), k2: vof(d, kind2, v2)}
-        return True, run_entry_points(d, schema, x, EPS_CORE)
+        return True, run_entry_points(d, schema, pick(INST_CAT, x) if cat else x, EPS_CORE)
 
-    return Spec([("v1", vtype(kind1)), ("v2", vtype(kind2)), ("x", INSTANCE_NO_INT if "float" in (kind1, kind2) else INSTANCE)], pre, body, tags=[])
+    return Spec([("v1", vtype(kind1)), ("v2", vtype(kind2)), ("x", int if cat else INSTANCE)], pre, body, tags=[])
 
 
 KEY_REGEXES = REGEXES + ["(?i)b", "(?s).", "(?i)^A$"]      # "(?m)^a" crashes CrossHair's regex model (IndexError on the empty subject): not used
